@@ -35,7 +35,7 @@ using UG = LabeledUndirectedGraph<L>;
 L lab(uint64_t stamp) { return LT<L>::make(stamp); }
 
 struct Counters {
-    uint64_t rejectedInBetween = 0, remutated = 0, graphs = 0, iterSteps = 0, conversions = 0, ctorChecks = 0, copies = 0, subsets = 0, remapChecks = 0, labelReads = 0, filesWritten = 0, emptyGraphs = 0,
+    uint64_t detours = 0, subOfSub = 0, rejectedInBetween = 0, remutated = 0, graphs = 0, iterSteps = 0, conversions = 0, ctorChecks = 0, copies = 0, subsets = 0, remapChecks = 0, labelReads = 0, filesWritten = 0, emptyGraphs = 0,
              zeroVertex = 0;
     ObsCounters oc;
 } C;
@@ -60,6 +60,27 @@ template <class G> Built<G> build(const GraphSpec &s, unsigned variant, Rng &r, 
         b.stamp[k] = st;
         b.x.e[k] = Expect::Cell();
         b.g.addEdge(e.first, e.second, lab(st));
+    }
+    // the last insertion-order variant also gives the graph a past: foreign edges and labels that come and go, a vertex
+    // stripped and rebuilt, sometimes everything cleared and rebuilt - the graph it denotes is the same
+    if (variant == 4 && s.n > 0) {
+        ++C.detours;
+        for (int t = 0; t < 3; ++t) {
+            VertexIndex i = r.u(s.n), j = r.u(s.n);
+            if (!b.x.e.count(canon(s.directed, i, j))) {
+                b.g.addEdge(i, j, lab(880000 + t));
+                if (LT<L>::labelled) b.g.setEdgeLabel(i, j, lab(890000 + t));
+                b.g.removeEdge(j == i || s.directed ? i : j, j == i || s.directed ? j : i);
+            }
+        }
+        VertexIndex v = r.u(s.n);
+        b.g.removeVertexFromEdgeList(v);
+        bool cleared = r.chance(1, 4);
+        if (cleared) b.g.clearEdges();
+        auto again = b.order;
+        for (size_t i = again.size(); i > 1; --i) std::swap(again[i - 1], again[r.u((unsigned)i)]);
+        for (auto &e : again)
+            if (cleared || e.first == v || e.second == v) b.g.addEdge(e.first, e.second, lab(b.stamp[canon(s.directed, e.first, e.second)]));
     }
     return b;
 }
@@ -439,6 +460,26 @@ template <class G> void c10(Reporter &R, const std::string &cls, const GraphSpec
             std::string e = checkEdgesOnly(sub, ind, C.oc);
             if (e.empty()) e = labelsMatch(sub, indStamp, s.directed, "getSubgraph");
             if (!e.empty()) { R.violation(cls + "/getSubgraph/" + obs(e), e + where); return; }
+            if (mask % 5 == 2 && n > 1) {
+                // a subgraph is a graph: extracting from it gives the subgraph induced by the intersection
+                std::unordered_set<VertexIndex> S2;
+                for (unsigned v2 = 0; v2 < n; ++v2)
+                    if (r.chance(2, 3)) S2.insert(v2);
+                Expect ind2;
+                ind2.directed = s.directed;
+                ind2.n = n;
+                std::map<Edge, uint64_t> ind2Stamp;
+                for (auto &kv : indStamp)
+                    if (S2.count(kv.first.first) && S2.count(kv.first.second)) {
+                        ind2.e[kv.first] = Expect::Cell();
+                        ind2Stamp[kv.first] = kv.second;
+                    }
+                G sub2 = alg::getSubgraph(sub, S2);
+                ++C.subOfSub;
+                e = checkEdgesOnly(sub2, ind2, C.oc);
+                if (e.empty()) e = labelsMatch(sub2, ind2Stamp, s.directed, "getSubgraph-of-getSubgraph");
+                if (!e.empty()) { R.violation(cls + "/getSubgraph/of-a-subgraph/" + obs(e), e + where); return; }
+            }
             auto pr = alg::getSubgraphWithRemap(b.g, S);
             ++C.remapChecks;
             G &rg = pr.first;
@@ -480,6 +521,8 @@ void flush(Reporter &R) {
     R.count("graphs_built", C.graphs);
     R.count("enumerate_mutate_enumerate_rounds", C.remutated);
     R.count("rejected_subgraph_calls_in_between", C.rejectedInBetween);
+    R.count("graphs_with_a_past_of_removals_and_rebuilds", C.detours);
+    R.count("subgraph_of_subgraph_checks", C.subOfSub);
     R.count("edge_iteration_steps", C.iterSteps);
     R.count("conversions_checked", C.conversions);
     R.count("constructor_checks", C.ctorChecks);
